@@ -228,12 +228,12 @@ theorem dreach_runTask (r : Realm) (t : Task) : DReach r.ds (r.runTask t).ds := 
 
 theorem dreach_stepOp (r : Realm) (op : Op) : DReach r.ds (r.stepOp op).ds := by
   cases op with
-  | join k isLocal details roles cap => rw [stepOp_join]; exact DReach.refl _
+  | join k isLocal details roles cap => rw [stepOp_join]; split <;> exact DReach.refl _
   | msg k m => exact dreach_recvMsg ..
   | buffer k => rw [stepOp_buffer]; exact DReach.refl _
   | drop k =>
     rw [stepOp_drop]
-    split <;> exact DReach.refl _
+    split <;> (try split) <;> exact DReach.refl _
   | stall k => rw [stepOp_stall]; exact DReach.refl _
   | resume k => rw [stepOp_resume]; exact DReach.refl _
   | tick ms => exact DReach.refl _
